@@ -433,6 +433,21 @@ class Registry(Profile):
                 v.clause = "F1"
                 v.sig = "%s:%s" % (k, "lost-registration" if v.detail.get("before") == "True" else "gained-registration")
             return v
+        # F1': nothing that a live node outside the discarded part still lists may lose its
+        # registration ("never unregister a node that is still in the tree")
+        if k in ("delete", "replace_child", "prune", "expand"):
+            lost = [h for h, cell in enumerate(c.pre.cells)
+                    if cell is not None and cell[RG] and c.post.cells[h] is not None and not c.post.cells[h][RG]]
+            if lost:
+                lostset = set(lost)
+                for h in lost:
+                    if k == "delete" and h == c.R["n"]:
+                        continue      # deleting by id is registry-only: the node may stay where it is
+                    for l in c.post.listers.get(h, ()):
+                        if l not in lostset and c.post.cells[l][RG]:
+                            return Violation("C14", "F1", "%s:unregisters-node-still-listed" % k,
+                                             "%s unregistered h%d, which live node h%d (not discarded) still lists" % (k, h, l),
+                                             {"node": h, "lister": l})
         # E1: nodes that came into being in this step are registered under their id
         creating = k in ("new", "copy", "import_xml", "restart", "expand", "eml_seed", "plant", "add_ref")
         for h in range(c.nh, len(c.post.cells)):
